@@ -371,6 +371,8 @@ def run_sched(spec, res):
                 # buffer the user configured
                 sc = dict(base_sc, path=VIAS[1 + (i // 2) % (len(VIAS) - 1)])
                 res.count('scheduled_executions_through_copies')
+            elif entry in ('parmap', 'pft', 'pf1') and i % 4 == 0:
+                sc = dict(base_sc, neighbour=True)
             r = conc.run(sc, cs.chooser_for(name, random.Random(seed)))
             if r['deadlock'] or r['steplimit']:
                 continue
